@@ -270,6 +270,22 @@ pub fn space_knn(anchor: DVec3, width: DVec3, max_cell_width: f64, points: &[DVe
     space.knn(k)
 }
 
+/// `Space::new` + `add_parts`: grid dimensions, (anchor, width) of every cell, cell id of every particle, and `get_r_ring(cid, r)`
+/// for the requested pairs
+pub fn space_grid(
+    anchor: DVec3,
+    width: DVec3,
+    max_cell_width: f64,
+    points: &[DVec3],
+    rings: &[(usize, i32)],
+) -> ([u32; 3], Vec<(DVec3, DVec3)>, Vec<usize>, Vec<Vec<usize>>) {
+    let mut space = Space::new(anchor, width, max_cell_width);
+    space.add_parts(points);
+    let (cdim, cells, cids) = space.verif_grid();
+    let rings = rings.iter().map(|&(cid, r)| space.verif_r_ring(cid, r)).collect();
+    (cdim, cells, cids, rings)
+}
+
 pub fn welzl(points: &[DVec3]) -> Sphere {
     Welzl::bounding_sphere(points)
 }
